@@ -298,6 +298,8 @@ SCENARIOS = [
     ['driver', 'fwd', 'rev', 'driver', 'rev_skip'],
     ['fwd_nd', 'fwd', 'rev', 'second_graph', 'rev', 'fwd_nd', 'fwd_same_DP', 'rev'],
     ['fwd', 'second_graph', 'rev', 'repeat', 'repeat'],
+    ['fwd', 'fwd_mut', 'rev', 'fwd_mut', 'rev'],                    # the caller updates its polynomial in place and passes the same object again
+    ['driver', 'driver_mut', 'driver_mut', 'fwd', 'fwd_mut'],       # x -= step * g; gradient(x) again (optimisation loop)
 ]
 
 
@@ -311,8 +313,8 @@ def history_contract(prog, rng, length, tol=1e-12, script=None):
     sc = prog.out_shape() == ()
     last_fwd = None; n = 0
     other = progs.Program(N, [(1, 'sin', (0,), {}), (2, 'mul', (1, 0), {})], 'other')
-    kinds = ['fwd', 'rev', 'rev', 'driver', 'fwd_nd', 'second_graph', 'repeat', 'fwd_c', 'fwd_same_DP']
-    prev = None
+    kinds = ['fwd', 'rev', 'rev', 'driver', 'fwd_nd', 'second_graph', 'repeat', 'fwd_c', 'fwd_same_DP', 'fwd_mut', 'driver_mut']
+    prev = None; last_x = None
     for step in range(length if script is None else len(script)):
         k = rng.choice(kinds) if script is None else script[step]
         if k == 'rev_skip': continue
@@ -326,10 +328,16 @@ def history_contract(prog, rng, length, tol=1e-12, script=None):
         elif k == 'fwd_same_DP':
             D_, P_ = (last_fwd.data.shape[:2] if last_fwd is not None else (2, 1))
             args = (make_utpm(N, D_, P_, rng),); k = 'fwd' 
+        elif k == 'fwd_mut' and last_fwd is not None and not numpy.iscomplexobj(last_fwd.data):
+            # the caller updates the polynomial it passed before IN PLACE and passes the same object again (an optimisation loop does that)
+            last_fwd.data[...] = last_fwd.data * 0.75 + 0.125; args = (last_fwd,); k = 'fwd'
+        elif k == 'fwd_mut': args = (make_utpm(N, rng.choice([1, 2, 3]), rng.choice([1, 2]), rng),); k = 'fwd'
         elif k == 'fwd_nd': args = (numpy.array([native.rnd(rng, 0.25, 1.0) for _ in range(N)]),)
         elif k == 'rev': args = (rng.random(),)
-        elif k == 'driver':
-            x = numpy.array([native.rnd(rng, 0.25, 1.0) for _ in range(N)]); v = numpy.array([native.rnd(rng, -1, 1, 8) for _ in range(N)])
+        elif k in ('driver', 'driver_mut'):
+            if k == 'driver_mut' and last_x is not None: x = last_x; x *= 0.75; x += 0.125          # same array object, updated in place (x -= step * g)
+            else: x = numpy.array([native.rnd(rng, 0.25, 1.0) for _ in range(N)])
+            v = numpy.array([native.rnd(rng, -1, 1, 8) for _ in range(N)]); last_x = x; k = 'driver'
             args = (rng.choice(['gradient', 'hessian', 'hess_vec'] if sc else ['jacobian', 'jac_vec', 'vec_jac']), x, v)
         else: args = ()
         prev = (k, args)
